@@ -219,6 +219,10 @@ def parse(text):
     gen = _state['gen']
     with _srv_lock_io:
         r = server().parse(text, mode)
+        if 'hang' in r:
+            # a loaded machine (JVM start-up of the restarted server included) is not a hang of the parser: one more
+            # attempt with four times the patience before the text is reported as hanging
+            r = server().parse(text, mode, timeout=4 * PARSE_TIMEOUT)
     if 'hang' in r:
         raise RuntimeError('VERIF-PARSER-HANG')
     if 'crash' in r:
